@@ -1,5 +1,6 @@
 import PdshVerif.Base.Hex
 import PdshVerif.Pcp.Spec
+import PdshVerif.Pcp.Session
 import Driver.Util
 
 /-! line protocol of the `pcp` engine (C11, C12): the receiver model `sink`, the sender model `send`,
@@ -7,6 +8,8 @@ the command-line construction and the two specifications, driven by checks/c11.p
 
     sink   P Y UMASK CNT RULE DIRCHMOD FSIZE CWD DEST STREAM FSENTRY...
     rt     P Y UMASK CNT RULE DIRCHMOD FSIZE CWD DEST REVERSE HOST SUBSEC SENTFIX NFS FSENTRY... SRCTOKENS...
+    sess   P Y UMASK CNT RULE DIRCHMOD FSIZE CWD DEST REVERSE HOST SUBSEC SENTFIX SKIPREF NFS FSENTRY... SRCTOKENS...
+           (the interactive sender of Pcp/Session.lean against the receiver; answer as `rt` plus failed= dead= early=)
     spec11 P DESTPATH NFS FSENTRY... SRCTOKENS...
     spec12 DESTPATH PATH...
     cmdf   PROG R P NENT DEST            cmdr PROG R P HOST FILE...
@@ -180,6 +183,20 @@ def handle (line : String) : String :=
         let shown := if stream.length ≤ 30000 then Hex.encode stream else "~"
         s!"nent={(expandAll srcs).length} c2slen={stream.length} c2scrc={(crc32 stream).toNat} c2s={shown} " ++
           showResult es (run o (fsOf es) stream)
+      | _, _ => "bad-op"
+    | _, _, _ => "bad-op"
+  | "sess" :: p :: y :: um :: cnt :: rule :: dch :: fsz :: cwd :: dest :: rev :: host :: ssec :: sfix :: skipref :: nfs :: rest =>
+    match mkOpts p y um cnt rule dch fsz cwd dest, Hex.decode host, nfs.toNat? with
+    | some o, some host, some nfs =>
+      match parseEntries (rest.take nfs), parseSrcs (rest.drop nfs) with
+      | some es, some srcs =>
+        let s := session { preserve := o.preserve, reverse := flag rev, host := host, subsec := flag ssec,
+                           sentinelFix := flag sfix } { skipRefused := flag skipref } o (fsOf es) (expandAll srcs)
+        let shown := if s.sent.length ≤ 30000 then Hex.encode s.sent else "~"
+        let early := match s.st.phase with | .done => 1 | _ => 0
+        s!"nent={(expandAll srcs).length} c2slen={s.sent.length} c2scrc={(crc32 s.sent).toNat} c2s={shown} " ++
+          s!"failed={if s.failed then 1 else 0} dead={if s.dead then 1 else 0} early={early} " ++
+          showResult es (finish o s.st)
       | _, _ => "bad-op"
     | _, _, _ => "bad-op"
   | "spec11" :: p :: dpath :: nfs :: rest =>
